@@ -168,7 +168,7 @@ func rulesC08(w *World, r *Report) {
 		}
 	}
 	ruleC08R8(w, r, a)
-	ruleC05R7(w, r, "C05.R7")
+	ruleC05R7(w, r, "C05.R7", 3, cmdReachableFrom(w, "CopyCommand"))
 	r.Rule("C08.R9", "the batch writer stores every aligned point it is given (no value- or age-dependent skip inside archiveUpdateMany), so NaN points requested by -copy-nan clear the destination slot; the write happens at the reads' clock all the way down to UpdatePointsForArchive", 2)
 	ruleWriterWritesAll(w, r, "C08.R9")
 	if cp != nil {
@@ -249,7 +249,7 @@ func rulesC11(w *World, r *Report) {
 	if ex := need(w, r, "C11.R3", w.Cmd, "SumDiffCommand.execute"); ex != nil {
 		ruleLatchedVerdict(w, r, "C11.R3", ex)
 	}
-	ruleC05R7(w, r, "C05.R7")
+	ruleC05R7(w, r, "C05.R7", 3, cmdReachableFrom(w, "SumCopyCommand", "SumDiffCommand"))
 	ruleValueTables(w, r, "C10.R1", false, false, true)
 	ruleC08R8(w, r, a)
 	r.Rule("C11.R4", "sibling agreement: sum-copy writes the file sum-diff reads — both build the destination path from DestBase, itemToRelDir(item) and DestRelPath; the batch writer stores every point at the reads' clock", 3)
@@ -609,7 +609,9 @@ func ruleDiffPredicates(w *World, r *Report, rule string) {
 		for body.Idom() != nil && !isLoopHeader(body.Idom()) {
 			body = body.Idom()
 		}
-		latchOrExit := func(b *ssa.BasicBlock) bool { return b == appBlock || (b != body && !body.Dominates(b)) || isLoopHeader(b) }
+		latchOrExit := func(b *ssa.BasicBlock) bool {
+			return b == appBlock || (b != body && !body.Dominates(b)) || isLoopHeader(b)
+		}
 		e := &ddEngine{w: w, env: map[ssa.Value]aval{}, stop: latchOrExit}
 		e.runFrom(body, body.Idom())
 		if e.err != nil {
